@@ -271,6 +271,8 @@ def run(ch, config, res):
                         args = (gen.name(wl, "name"), [10, 100000][wl.int("size", 2)])
                     elif opname in ("getscript", "deletescript", "setactive"):
                         args = (gen.name(wl, "name"),)
+                        if opname == "setactive" and wl.flag("deactivate", 1, 3):
+                            args = ("",)       # SETACTIVE "" = deactivate: a refusal of that is a refusal like any other
                     elif opname == "putscript":
                         args = (gen.name(wl, "name"), ["keep;\r\n", "INVALID\r\n"][wl.int("valid", 2)])
                     elif opname == "checkscript":
